@@ -84,6 +84,16 @@ check("C32", "exploration",
 
 PENDING = {}
 
+# one file per property written next to the check while it is built: tools/manifest.d/Cxx.json
+# {"level":..., "technique":..., "text":..., "note":..., "engine": "mc_core"|"compile-batch+pyrun"|..., "thorough": true}
+_D = os.path.join(HERE, "tools", "manifest.d")
+if os.path.isdir(_D):
+    for _n in sorted(os.listdir(_D)):
+        if _n.endswith(".json"):
+            _c = json.load(open(os.path.join(_D, _n)))
+            check(_n[:-5], _c["level"], _c["technique"], _c["text"], _c["note"], engine=_c.get("engine", "mc_core"),
+                  design=_c.get("design"), thorough=_c.get("thorough", True))
+
 
 def main():
     props = [json.loads(l) for l in open(os.path.join(HERE, "properties.jsonl"))]
